@@ -62,6 +62,9 @@ def jobs(tier, seed):
                   P=dict(p_join=0.9, p_intjoin=0.9, p_intjoin_less=0.9, nmax=5, p_items=0.05, p_retry=0.05), name="rerun-int-joins")
     # the repository's own fixture definitions under generated outcomes, schedules and requests
     js += [dict(fn="corpus", parts=4, part=i, runs=scale(tier, 4, 40), gseed=seed, ctl=dict(req=0.06, max_req=2, crash=0.05), name="corpus") for i in range(4)]
+    if tier == "thorough":
+        # the repository's own tests under the state-independent monitors
+        js += [dict(fn="suite_under_monitors", name="suite-under-monitors")]
     return js
 
 
